@@ -151,6 +151,28 @@ def knotted_cases(count, seed, *, max_comp=7, tag="k"):
     return cases
 
 
+def clique_cases(tag="q"):
+    """Ladders of 6 and 7 mutually crossing stems (letter brackets beyond the four symbol pairs) whose lengths
+    are NOT in descending 5'-3' order: first come first served and the optimum differ in the letter levels only."""
+    cases = []
+    for k, lens in enumerate(([6, 5, 4, 3, 1, 2], [6, 5, 4, 3, 2, 1], [1, 2, 3, 4, 5, 6], [3, 3, 3, 3, 1, 2],
+                              [2, 2, 2, 2, 2, 1, 3], [7, 6, 5, 4, 3, 1, 2])):
+        starts5, pos = [], 1
+        for ln in lens:
+            starts5.append(pos)
+            pos += ln + 1
+        pos += 2
+        pairs = []
+        for t, ln in enumerate(lens):
+            for u in range(ln):
+                pairs.append([starts5[t] + u, pos + ln - 1 - u])
+            pos += ln + 1
+        n = pos
+        cases.append({"id": f"{tag}-{k}", "kind": "bp", "n": n, "pairs": sorted(pairs),
+                      "seq": [LETTERS[i % 4] for i in range(n)]})
+    return cases
+
+
 # ------------------------------------------------------------------ recording (real code)
 
 def _bpseq(case):
